@@ -8,6 +8,7 @@ Oracle: an independent numpy machine over immutable (matrix, pivot) values (`xf_
 from __future__ import annotations
 
 import itertools
+import math
 import warnings
 
 import numpy as np
@@ -350,6 +351,287 @@ def gen_near_case(rng):
     return {"exact": False, "family": "near", "probes": probes, "ops": ops}
 
 
+def gen_deferred_case(rng):
+    """family "deferred": the context-manager OBJECT is made (`scope = g.current_transform()`,
+    `g.named_transform(name)`) some calls before it is entered, and the transform, the stack or the very name change in
+    between; "the transform in effect on entry" and "the transform in effect when the object was made" differ, which
+    they never do in `with g.current_transform():` written inline (the only form the other families use).  Shapes:
+
+      late     make one scope, 1..3 changes, enter it (`with scope:` or through an ExitStack), a body, leave it
+      upfront  2..3 scopes made up front (as one does for an ExitStack), maybe a change, entered one after the other
+               - entering a named one changes the transform the next one has to put back -, left in reverse order
+      again    one object entered several times the way a decorated function does on every call, changes in between
+      mixed    makes, deferred and inline entries, exits, failing calls and saves / restores in random order"""
+    exact = rng.random() < 0.5
+    budget = {"log": 0.0, "max": 5.0 if exact else 4.0}
+    names = X.NAMES[: rng.choice([1, 2])]
+    st = {"rot": 0, "depth": 0, "open": 0}
+    ops, saved, made = [], set(), []
+
+    def xf():
+        while True:
+            op = X.gen_xf_op(rng, exact, budget)
+            if op[0] == "rotate" and op[1] != 0.0:
+                if st["rot"] >= 5:  # keeps the model's exact rationals printable
+                    continue
+                st["rot"] += 1
+            return op
+
+    def save_named():
+        nm = rng.choice(names)
+        ops.append(("save", nm if rng.random() < 0.9 else nm + " "))
+        saved.add(nm)
+
+    def change():
+        """something that alters the transform, the stack or a name"""
+        r = rng.random()
+        if r < 0.62:
+            ops.append(xf())
+        elif r < 0.74:
+            ops.append(("save", None))
+            st["depth"] += 1
+        elif r < 0.82:
+            if st["depth"]:
+                ops.append(("restore", None))
+                st["depth"] -= 1
+            else:
+                ops.append(xf())
+        elif r < 0.91:
+            ops.append(("restore", rng.choice(sorted(saved))) if saved else xf())
+        else:
+            save_named()   # a named scope made earlier restores what the name holds when it is ENTERED
+
+    def make():
+        if saved and rng.random() < 0.45:
+            ops.append(("make-named", rng.choice(sorted(saved))))
+        elif rng.random() < 0.04:
+            ops.append(("make-named", rng.choice(["zz", ""])))   # entering it fails; making it does not
+        else:
+            ops.append(("make-current",))
+        made.append(ops[-1])
+
+    def enter(i, how):
+        ops.append(("enter-made", i, how))
+        if how != "again":
+            made.pop(i)
+        st["open"] += 1
+
+    def leave():
+        ops.append(("exit", rng.random() < 0.4))
+        st["open"] -= 1
+
+    def body(n):
+        for _ in range(n):
+            r = rng.random()
+            if r < 0.7:
+                ops.append(xf())
+            elif r < 0.8:
+                ops.append(("save", None))       # left on the stack: the exit has to take it off again
+            elif r < 0.9:
+                ops.append(("restore", None))    # takes an outer entry off (or fails): the exit has to put it back
+            else:
+                save_named()
+
+    for _ in range(rng.choice([0, 1, 2, 3])):
+        ops.append(xf())
+    if rng.random() < 0.6:
+        save_named()
+    if rng.random() < 0.3:
+        ops.append(("save", None))
+        st["depth"] += 1
+    shape = rng.choice(["late", "late", "upfront", "upfront", "again", "mixed", "mixed"])
+    how2 = lambda: rng.choice(["with", "stack"])  # noqa: E731
+    if shape == "late":
+        for _ in range(rng.choice([1, 1, 2])):
+            make()
+            for _ in range(rng.randint(1, 3)):
+                change()
+            enter(0, how2())
+            body(rng.randint(0, 2))
+            leave()
+            for _ in range(rng.randint(0, 2)):
+                change()
+    elif shape == "upfront":
+        k = rng.choice([2, 2, 3])
+        for _ in range(k):
+            make()
+        for _ in range(rng.choice([0, 0, 1, 2])):
+            change()
+        how = rng.choice(["stack", "stack", "with", None])
+        order = rng.choice(["fifo", "fifo", "lifo", "any"])
+        for _ in range(k):
+            i = 0 if order == "fifo" else len(made) - 1 if order == "lifo" else rng.randrange(len(made))
+            enter(i, how or how2())
+            body(rng.choice([0, 0, 1, 2]))
+        for _ in range(k):
+            leave()
+            if rng.random() < 0.4:
+                ops.append(xf())
+    elif shape == "again":
+        make()
+        for _ in range(rng.randint(2, 3)):
+            for _ in range(rng.randint(1, 2)):
+                change()
+            enter(0, "again")
+            body(rng.randint(0, 2))
+            leave()
+    else:
+        for _ in range(rng.randint(8, 18)):
+            r = rng.random()
+            if r < 0.30:
+                change()
+            elif r < 0.48:
+                if len(made) < 3:
+                    make()
+            elif r < 0.68:
+                if made and st["open"] < 3:
+                    enter(rng.randrange(len(made)), rng.choice(["with", "stack", "stack", "again"]))
+            elif r < 0.74:
+                if st["open"] < 3:
+                    ops.append(("enter-named", rng.choice(sorted(saved))) if saved and rng.random() < 0.5 else ("enter-current",))
+                    st["open"] += 1
+            elif r < 0.94:
+                if st["open"] > 0:
+                    leave()
+            elif st["open"] > 0:
+                ops.append(rng.choice([("restore", "zz"), ("delete", "zz"), ("scale", [0.0])]))
+                k = rng.randint(1, st["open"])
+                ops.append(("unwind", k))
+                st["open"] -= k
+    for _ in range(max(st["open"], 0)):
+        ops.append(("exit", rng.random() < 0.3))
+    for nm in sorted(saved):
+        ops.append(("restore", nm))
+    for _ in range(min(st["depth"], 4) + 1):
+        ops.append(("restore", None))
+    return {"exact": exact and all(X.is_exact_op(o) for o in ops), "family": "deferred", "probes": gen_probes(rng, exact),
+            "ops": ops}
+
+
+INT_FACTORS = [2, 2, 3, -1, -2, 4, 5, 10, 1]
+INT_BLOCKS = [[2, 0, 0, 0, 2, 0, 0, 0, 2], [2, 0, 0, 0, 3, 0, 0, 0, 1], [1, 1, 0, 0, 1, 0, 0, 0, 1], [1, 0, 0, 2, 1, 0, 0, 0, -1],
+              [-1, 0, 0, 0, 1, 0, 0, 0, 1], [0, -2, 0, 2, 0, 0, 0, 0, 1]]
+
+
+def floated(op):
+    """the float twin of a call made with integers"""
+    k = op[0]
+    if k in ("translate", "scale", "pivot", "reflect", "chain"):
+        return (k, [float(c) for c in op[1]])
+    if k == "rotate":
+        return (k, float(op[1]), op[2])
+    return op
+
+
+def gen_ints_case(rng):
+    """family "ints": the numbers are handed over the way they are usually typed - `scale(2)`, `translate(10, 0, 5)`,
+    `rotate(90)`, `reflect([1, 1, 0])`, `set_pivot((3, 2, 0))` as Python ints (numpy integers are refused by the
+    signatures), `chain_transform` with an ndarray of dtype int64 / int32 -, all-integer and mixed with floats, about
+    pivots with FRACTIONAL coordinates (halves, quarters, 32nds, arbitrary) as well as whole ones, snapshotted by save /
+    restore / blocks.  Returns the history and its float twin (same calls, every number a float): both are run and judged.
+    The other families only ever pass floats."""
+    budget = {"log": 0.0, "max": 5.0}
+    names = X.NAMES[: rng.choice([1, 2])]
+    st = {"rot": 0, "depth": 0, "open": 0}
+    ops, saved = [], set()
+
+    def factor():
+        f = rng.choice(INT_FACTORS)
+        lg = math.log2(abs(f))
+        if abs(budget["log"] + lg) > budget["max"]:
+            f, lg = rng.choice([1, -1]), 0.0
+        budget["log"] += lg
+        return f
+
+    def pivot():
+        r = rng.random()
+        if r < 0.25:
+            p = [rng.randint(-10, 10), rng.randint(-10, 10), rng.choice([0, 0, rng.randint(-5, 5)])]   # whole, as ints
+        elif r < 0.85:
+            d = rng.choice([2, 2, 4, 8, 32])
+            p = [rng.randint(-40, 40) / d, rng.randint(-40, 40) / d, rng.choice([0, 0.0, rng.randint(-40, 40) / d])]
+        else:
+            p = [round(rng.uniform(-20, 20), rng.choice([1, 2, 3])) for _ in range(3)]
+        return ("pivot", p)
+
+    def call():
+        k = rng.choices(["scale", "translate", "rotate", "reflect", "mirror", "pivot", "chain"], [32, 14, 8, 6, 4, 20, 16])[0]
+        if k == "scale":
+            fs = [factor() for _ in range(rng.choice([1, 1, 1, 2, 3]))]
+            if rng.random() < 0.15:   # one float among the ints
+                fs[rng.randrange(len(fs))] = rng.choice([0.5, 2.0, 1.0, 1.5])
+            return ("scale", fs)
+        if k == "translate":
+            v = [rng.randint(-20, 20) for _ in range(3)]
+            if rng.random() < 0.2:
+                v[rng.randrange(3)] = X.grid(rng)
+            return ("translate", v)
+        if k == "rotate":
+            if st["rot"] >= 3:
+                return ("rotate", 0, rng.choice(X.AXES))
+            st["rot"] += 1
+            return ("rotate", rng.choice([90, -90, 180, 270, 45, 30, 360, -17]), rng.choice(X.AXES))
+        if k == "reflect":
+            while True:
+                n = [rng.randint(-2, 2) for _ in range(3)]
+                if any(n):
+                    return ("reflect", n)
+        if k == "mirror":
+            return ("mirror", rng.choice(["xy", "yz", "zx"]))
+        if k == "pivot":
+            return pivot()
+        blk = list(rng.choice(X.EXACT_BLOCKS + INT_BLOCKS))
+        lg = math.log2(max(1, max(abs(c) for c in blk)))
+        if abs(budget["log"] + lg) > budget["max"]:
+            blk = list(rng.choice(X.EXACT_BLOCKS))
+        else:
+            budget["log"] += lg
+        return ("chain", [int(c) for c in blk], rng.choice(["int64", "int64", "int32"]))
+
+    if rng.random() < 0.7:
+        ops.append(pivot())
+    for _ in range(rng.randint(3, 12)):
+        r = rng.random()
+        if r < 0.62:
+            ops.append(call())
+        elif r < 0.70:
+            ops.append(("save", None))
+            st["depth"] += 1
+        elif r < 0.77:
+            nm = rng.choice(names)
+            ops.append(("save", nm))
+            saved.add(nm)
+        elif r < 0.83:
+            if st["depth"]:
+                ops.append(("restore", None))
+                st["depth"] -= 1
+        elif r < 0.89:
+            if saved:
+                ops.append(("restore", rng.choice(sorted(saved))))
+        elif r < 0.95:
+            if st["open"] < 2:
+                ops.append(("enter-named", rng.choice(sorted(saved))) if saved and rng.random() < 0.5 else ("enter-current",))
+                ops.append(call())
+                st["open"] += 1
+        elif st["open"]:
+            ops.append(("exit", rng.random() < 0.4))
+            st["open"] -= 1
+    for _ in range(st["open"]):
+        ops.append(("exit", rng.random() < 0.3))
+    for nm in sorted(saved):
+        ops.append(("restore", nm))
+    for _ in range(min(st["depth"], 4)):
+        ops.append(("restore", None))
+    exact = all(X.is_exact_op(o) for o in ops)
+    probes = gen_probes(rng, exact)
+    return ({"exact": exact, "family": "ints", "probes": probes, "ops": ops},
+            {"exact": exact, "family": "ints-twin", "probes": probes, "ops": [floated(o) for o in ops]})
+
+
+def gen_ints_cases(rng, n):
+    return [c for _ in range(n) for c in gen_ints_case(rng)]
+
+
 # exhaustive alphabet (thorough): 10 calls, exact arithmetic
 ALPHABET = [
     ("translate", [1.0, 0.5, -2.0]), ("scale", [2.0]), ("chain", [0.0, -1.0, 0.0, 1.0, 0.0, 0.0, 0.0, 0.0, 1.0]),
@@ -400,7 +682,7 @@ def oracle(case, trace):
         ref_pivot_before = ref.cur[1].copy()
         want = ref.step(op)
         o = e["obs"]
-        where = f"step {i} ({e['line'][:40]})"
+        where = f"step {i} ({(e['line'] or ' '.join(str(x) for x in op))[:40]})"
         if e["outcome"] != want:
             return f"{where}: raised {e['outcome']}, the specification says {want}", "outcome"
         if o["depth"] != len(ref.stack):
@@ -573,7 +855,7 @@ def oracle_strong(case, trace):
         ref_pivot_before = ref.cur[1].copy()
         want = ref.step(op)
         o = e["obs"]
-        where = f"step {i} ({e['line'][:40]})"
+        where = f"step {i} ({(e['line'] or ' '.join(str(x) for x in op))[:40]})"
         if e["outcome"] != want:
             return f"{where}: raised {e['outcome']}, the specification says {want}", "outcome"
         if o["depth"] != len(ref.stack):
@@ -625,7 +907,90 @@ def oracle_strong(case, trace):
     return None, None
 
 
-class RTSession(X.Session):
+class Session13(X.Session):
+    """`X.Session` plus the calls of the families `deferred` and `ints`:
+
+        ("make-current",)  ("make-named", name)   `g.current_transform()` / `g.named_transform(name)` is CALLED and the
+                                                  context-manager object kept - it is not entered.  Nothing is told to the
+                                                  model (trace entry with `line` None): a scope that has not been entered
+                                                  is not a scope yet; the observations after the call are judged by the oracle.
+        ("enter-made", i, how)                    the i-th object still kept (i modulo their number) is entered now:
+                                                  how = "with"  : `cm.__enter__()`, what `with scope:` does
+                                                        "stack" : `ExitStack().enter_context(cm)`; the ExitStack is what is left later
+                                                        "again" : the way a decorated function enters it on every call
+                                                                  (`ContextDecorator.__call__`: `with cm._recreate_cm():`);
+                                                                  the object stays and can be entered again.
+                                                  For the specification and the model this IS `enter-current` /
+                                                  `enter-named name` at this very moment: the trace entry carries that op and line.
+        ("chain", [9 integers], "int64"|"int32")  chain_transform with an ndarray of that integer dtype
+
+    Python ints in the argument lists of translate / scale / rotate / reflect / set_pivot need nothing special: the op
+    lists (and their JSON) keep 2 and 2.0 apart and `X.Session._call` hands them over as they are."""
+
+    def __init__(self, *a, **k):
+        super().__init__(*a, **k)
+        self.made = []   # [op that made it, context-manager object], oldest first
+
+    def _guarded(self, fn):
+        n0 = len(self.rec.lines)
+        try:
+            fn()
+            outcome = "ok"
+        except IndexError:
+            outcome = "IndexError"
+        except KeyError:
+            outcome = "KeyError"
+        except ValueError:
+            outcome = "ValueError"
+        return outcome, None, self.rec.lines[n0:]
+
+    def _call(self, op):
+        if op[0] == "chain" and len(op) > 2:
+            m = np.eye(4, dtype=op[2])
+            m[:3, :3] = np.array(op[1], dtype=op[2]).reshape(3, 3)
+            return self._guarded(lambda: self.t.chain_transform(m))
+        return super()._call(op)
+
+    def _entry(self, op, line, res, **more):
+        outcome, block, written = res
+        return {"op": op, "line": line, "outcome": outcome, "block": block, "written": written,
+                "obs": self.observe(), "pivot": None, **more}
+
+    def step(self, op) -> dict:
+        k = op[0]
+        if k in ("make-current", "make-named"):
+            def make():
+                cm = self.g.current_transform() if k == "make-current" else self.g.named_transform(op[1])
+                self.made.append([op, cm])
+            return self._entry(op, None, self._guarded(make))
+        if k == "enter-made" and self.made:
+            i = int(op[1]) % len(self.made)
+            made_by, cm = self.made[i]
+            how = op[2] if op[2] != "again" or hasattr(cm, "_recreate_cm") else "with"
+            if how != "again":
+                del self.made[i]   # a generator-based context manager can be entered once
+
+            def enter():
+                if how == "again":
+                    c = cm._recreate_cm()
+                    c.__enter__()
+                elif how == "stack":
+                    import contextlib
+
+                    c = contextlib.ExitStack()
+                    c.enter_context(cm)
+                else:
+                    c = cm
+                    c.__enter__()
+                self.cms.append(c)
+            eq = ("enter-current",) if made_by[0] == "make-current" else ("enter-named", made_by[1])
+            return self._entry(eq, X.op_line(eq), self._guarded(enter), via=how)
+        if k == "enter-made":
+            return super().step(("enter-current",))   # nothing was made: an ordinary block
+        return super().step(op)
+
+
+class RTSession(Session13):
     """Session that also observes the round trip reverse_transform(apply_transform(p)) of every probe after every call"""
 
     def observe(self) -> dict:
@@ -684,14 +1049,14 @@ def run_batch(R, cases, label, oracle_only=False, pipe=None):
             for w in caught[:1]:
                 R.count("strong:case-with-" + w.category.__name__)
         else:
-            sess = X.Session(probes=case["probes"])
+            sess = Session13(probes=case["probes"])
             tr = sess.execute(case["ops"])
             rt = roundtrip_oracle(sess, case["probes"])
         traces.append((tr, rt))
         start = len(lines)
         lines.append("reset")
         lines.append("probes " + " ".join(X.qv(p) for p in case["probes"]))
-        lines.extend(e["line"] for e in tr)
+        lines.extend(e["line"] for e in tr if e["line"] is not None)   # making a scope object is no call of the model
         spans.append((start + 2, len(lines)))
     fut = None if oracle_only else X.submit_model(lines)
     job = (R, cases, label, oracle_only, traces, spans, fut)
@@ -722,8 +1087,10 @@ def finish_batch(job):
                 "ctx:" + str(max([e['obs']['ctx'] for e in tr] + [0])))
         for e in tr:
             R.count("op:" + e["op"][0] + ("" if e["outcome"] == "ok" else ":" + e["outcome"]))
+            if e.get("via"):
+                R.count("entered-later:" + e["via"])
         if not oracle_only:
-            d = compare(case, tr, model_out[a:b])
+            d = compare(case, [e for e in tr if e["line"] is not None], model_out[a:b])
             if d:
                 R.disagree("transform-history", cj, d[1], d[2], step=d[0])
         if msg:
@@ -775,6 +1142,39 @@ STRONG_CORPUS = [
 ]
 
 
+_P3 = [[1.5, -2.0, 0.5], [0.0, 0.0, 0.0], [-3.0, 4.0, 8.0], [1.0, 0.0, 0.0], [0.25, 1.0, -1.0]]
+DEFERRED_CORPUS = [
+    # scope = g.current_transform(); the transform is changed; with scope: ...  - leaving puts back the state on entry
+    {"exact": True, "family": "deferred", "probes": _P3,
+     "ops": [("translate", [10.0, 0.0, 0.0]), ("make-current",), ("translate", [1.0, 1.0, 1.0]), ("save", None),
+             ("enter-made", 0, "with"), ("scale", [2.0]), ("restore", None), ("exit", False), ("restore", None)]},
+    # two scopes made up front and entered through an ExitStack: entering the named one changes what the second puts back
+    {"exact": True, "family": "deferred", "probes": _P3,
+     "ops": [("scale", [2.0]), ("save", "a"), ("translate", [0.0, 4.0, 0.0]), ("make-named", "a"), ("make-current",),
+             ("enter-made", 0, "stack"), ("enter-made", 0, "stack"), ("translate", [1.0, 0.0, 0.0]), ("exit", True),
+             ("exit", False), ("restore", "a")]},
+    # one object, entered on every call of a decorated function
+    {"exact": True, "family": "deferred", "probes": _P3,
+     "ops": [("make-current",), ("translate", [2.0, 0.0, 0.0]), ("enter-made", 0, "again"), ("scale", [0.5]), ("exit", False),
+             ("pivot", [1.0, 1.0, 0.0]), ("scale", [2.0]), ("enter-made", 0, "again"), ("translate", [0.0, 0.0, 1.0]),
+             ("exit", True)]},
+]
+
+INTS_CORPUS = [
+    # scale(2) about a pivot with halves, inside a block and after it; the same with floats
+    {"exact": True, "family": "ints", "probes": _P3,
+     "ops": [("pivot", [2.5, 1.5, 0]), ("save", "a"), ("enter-current",), ("scale", [2]), ("exit", False), ("scale", [2, 4]),
+             ("translate", [3, 0, -1]), ("restore", "a"), ("scale", [-1])]},
+    {"exact": True, "family": "ints-twin", "probes": _P3,
+     "ops": [("pivot", [2.5, 1.5, 0.0]), ("save", "a"), ("enter-current",), ("scale", [2.0]), ("exit", False),
+             ("scale", [2.0, 4.0]), ("translate", [3.0, 0.0, -1.0]), ("restore", "a"), ("scale", [-1.0])]},
+    # an integer ndarray handed to chain_transform about a fractional pivot; integer angle and normal
+    {"exact": False, "family": "ints", "probes": _P3,
+     "ops": [("pivot", [0.25, -1.5, 0.5]), ("chain", [0, -1, 0, 1, 0, 0, 0, 0, 1], "int64"), ("save", None),
+             ("chain", [2, 0, 0, 0, 3, 0, 0, 0, 1], "int32"), ("rotate", 90, "z"), ("reflect", [1, 1, 0]), ("restore", None)]},
+]
+
+
 NEAR_CORPUS = [
     # a fixture offset saved under a name; a fine offset, a shrinkage factor and a nudged pivot, each followed by a restore
     {"exact": False, "family": "near", "probes": [[0.0, 0.0, 0.0], [120.0, -35.5, 2.0], [1.25, 300.0, -0.5]],
@@ -801,7 +1201,13 @@ def run(R: core.Run):
               "numerical clauses with tolerances K x first-order rounding bound of the matrix at hand; plus the family `near` "
               "(same oracle): states with entries of 50..2000 units (offsets, calls about far pivots) snapshotted by name / "
               "stack / block, changed by 10^-2 .. 10^-7 of their entries (offset, factor, turn, pivot) and restored, 2..5 "
-              "rounds; a named state must map the probes as it did when it was saved, every time it is restored")
+              "rounds; a named state must map the probes as it did when it was saved, every time it is restored; plus the "
+              "family `deferred` (ordinary oracle and model): the context-manager objects are made some calls before they are "
+              "entered (one scope entered late, 2..3 scopes made up front and entered through `with` / an ExitStack, one "
+              "object entered repeatedly the way a decorator does, random mixes) with changes of the transform / stack / "
+              "name in between - what is put back on exit is the state on ENTRY; plus the family `ints` (+ float twins): "
+              "Python ints for scale / translate / rotate / reflect / set_pivot, int64 / int32 ndarrays for "
+              "chain_transform, about fractional and whole pivots")
     R.assumptions = [
         "IEEE rounding inside numpy/scipy is not modelled: off-grid histories are compared at 1e-9 (relative to magnitude)",
         "scipy Rotation: the 3x3 block is read from the very call the code makes and handed to the model as exact rationals",
@@ -830,6 +1236,10 @@ def run(R: core.Run):
         "what": "worst |error| / first-order rounding bound seen in the near family (same K; `same` = a named state "
                 "against its own images at the time it was saved)",
         "worst_ratio": {k: round(v, 3) for k, v in WORST.items()}}
+    run_batch(R, DEFERRED_CORPUS, "deferred-corpus")
+    run_all(R, [gen_deferred_case(R.rng) for _ in range(R.n(160, 1600))], "deferred", 250)
+    run_batch(R, INTS_CORPUS, "ints-corpus")
+    run_all(R, gen_ints_cases(R.rng, R.n(60, 600)), "ints", 250)
     if R.thorough:
         ex = list(exhaustive_cases(5))
         run_all(R, ex, "exhaustive<=5", 4000)
@@ -843,6 +1253,8 @@ def run(R: core.Run):
         run_all(R, [gen_case(R.rng) for _ in range(R.n(1500, 6000))], "search", 500, oracle_only=True)
         run_all(R, [gen_strong_case(R.rng) for _ in range(R.n(300, 1500))], "strong-search", 500, oracle_only=True)
         run_all(R, [gen_near_case(R.rng) for _ in range(R.n(200, 1500))], "near-search", 500, oracle_only=True)
+        run_all(R, [gen_deferred_case(R.rng) for _ in range(R.n(300, 1500))], "deferred-search", 500, oracle_only=True)
+        run_all(R, gen_ints_cases(R.rng, R.n(150, 750)), "ints-search", 500, oracle_only=True)
     return {}, {}
 
 
@@ -854,17 +1266,18 @@ def replay(data):
         print("replay: no case recorded (", data.get("no_longer_checks"), ")")
         return 1
     case = from_json(cj)
-    sess = (RTSession if is_strong(case) else X.Session)(probes=case["probes"])
+    sess = (RTSession if is_strong(case) else Session13)(probes=case["probes"])
     tr = sess.execute(case["ops"])
-    lines = ["probes " + " ".join(X.qv(p) for p in case["probes"])] + [e["line"] for e in tr]
+    told = [e for e in tr if e["line"] is not None]
+    lines = ["probes " + " ".join(X.qv(p) for p in case["probes"])] + [e["line"] for e in told]
     out = core.run_model(X.MODE, lines)[1:]
     if is_strong(case):
         msg, tag = oracle_strong(case, tr)
     else:
         msg, tag = oracle(case, tr)
         msg = msg or roundtrip_oracle(sess, case["probes"])
-    d = compare(case, tr, out)
-    for e, m in zip(tr, out):
+    d = compare(case, told, out)
+    for e, m in zip(told, out):
         print("call :", e["line"][:100])
         print(" impl:", X.impl_record(e, 5)[:300])
         print(" model:", X.model_record_rounded(m, 5)[:300])
